@@ -206,3 +206,279 @@ Proof.
   - rewrite X. split; reflexivity.
   - rewrite X. split; reflexivity.
 Qed.
+
+(* ================= Part 2: from CRYPTO frames to the TLS outcome ========================================== *)
+From AQ Require Import model.RangeSet model.StreamSpec proofs.RangeSetP proofs.StreamRecvP proofs.TlsQuicStream.
+
+(* what TLS processing reads and writes of the connection *)
+Definition tlsproj (c : conn) :=
+  (q_client c, q_cfg c, q_tls c, q_rbuf c, q_rbuf_epoch c, q_orcs c, q_log c, q_hs_out c).
+
+Lemma tlsproj_eq : forall c c', tlsproj c = tlsproj c' ->
+  q_client c = q_client c' /\ q_cfg c = q_cfg c' /\ q_tls c = q_tls c' /\ q_rbuf c = q_rbuf c' /\
+  q_rbuf_epoch c = q_rbuf_epoch c' /\ q_orcs c = q_orcs c' /\ q_log c = q_log c' /\ q_hs_out c = q_hs_out c'.
+Proof. intros c c' H. unfold tlsproj in H. inversion H. repeat split; assumption. Qed.
+
+Lemma tlsproj_install : forall c ks, tlsproj (install c ks) = tlsproj c.
+Proof.
+  intros c ks. destruct (install_fields ks c) as (F1 & F2 & F3 & F4 & _ & _ & F7 & F8 & F9 & _ & _ & _ & _ & F14).
+  unfold tlsproj. rewrite F1, F2, F3, F4, F7, F8, F9, F14. reflexivity.
+Qed.
+
+Lemma tlsproj_forget : forall c c', tlsproj c = tlsproj c' -> tlsproj (forget c) = tlsproj (forget c').
+Proof.
+  intros c c' H. destruct (tlsproj_eq _ _ H) as (A1 & A2 & A3 & A4 & A5 & A6 & A7 & A8).
+  unfold tlsproj, forget. cbn. rewrite A1, A2, A3, A6, A7, A8. reflexivity.
+Qed.
+
+Lemma dispatch_one_cong : forall e c c' t rest, tlsproj c = tlsproj c' ->
+  fst (dispatch_one e c t rest) = fst (dispatch_one e c' t rest) /\
+  tlsproj (snd (dispatch_one e c t rest)) = tlsproj (snd (dispatch_one e c' t rest)).
+Proof.
+  intros e c c' t rest H. destruct (tlsproj_eq _ _ H) as (A1 & A2 & A3 & A4 & A5 & A6 & A7 & A8).
+  unfold dispatch_one. rewrite <- A1, <- A2, <- A3, <- A5, <- A6, <- A7, <- A8.
+  destruct (step (q_cfg c) (q_tls c) _) as [[o s'] ks]. cbn [fst snd]. split; [reflexivity|].
+  rewrite !tlsproj_install. reflexivity.
+Qed.
+
+Lemma tls_loop_cong : forall p e fuel c c', tlsproj c = tlsproj c' ->
+  fst (tls_loop fuel p e c) = fst (tls_loop fuel p e c') /\
+  tlsproj (snd (tls_loop fuel p e c)) = tlsproj (snd (tls_loop fuel p e c')).
+Proof.
+  intros p e fuel. induction fuel as [|fuel IH]; intros c c' H; cbn [tls_loop]; [split; [reflexivity|exact H]|].
+  destruct (tlsproj_eq _ _ H) as (A1 & A2 & A3 & A4 & A5 & A6 & A7 & A8).
+  rewrite <- A4, <- A3.
+  destruct (q_rbuf c) as [|t [|l1 [|l2 [|l3 tl]]]]; try (split; [reflexivity|exact H]).
+  destruct (_ >? MAX_HANDSHAKE_MESSAGE_SIZE); [split; [reflexivity|exact H]|].
+  destruct (_ <? _); [split; [reflexivity|exact H]|].
+  destruct (p && _); [split; [reflexivity|exact H]|].
+  destruct (dispatch_one_cong e c c' t (zdrop (4 + (l1 * 65536 + l2 * 256 + l3)) (t :: l1 :: l2 :: l3 :: tl)) H) as [D1 D2].
+  destruct (dispatch_one e c t _) as [o c1]. destruct (dispatch_one e c' t _) as [o' c1']. cbn [fst snd] in D1, D2. subst o'.
+  destruct o; [apply IH, D2| |]; split; [reflexivity|exact D2|reflexivity|exact D2].
+Qed.
+
+Lemma tls_feed_cong : forall p e c c' d, tlsproj c = tlsproj c' ->
+  fst (tls_feed p e c d) = fst (tls_feed p e c' d) /\
+  tlsproj (snd (tls_feed p e c d)) = tlsproj (snd (tls_feed p e c' d)).
+Proof.
+  intros p e c c' d H. destruct (tlsproj_eq _ _ H) as (A1 & A2 & A3 & A4 & A5 & A6 & A7 & A8).
+  unfold tls_feed. rewrite <- A3, <- A4, <- A5, <- A2.
+  assert (L : forall b x, fst (tls_loop (S (length b)) p e (set_rbuf c b x)) = fst (tls_loop (S (length b)) p e (set_rbuf c' b x)) /\
+              tlsproj (snd (tls_loop (S (length b)) p e (set_rbuf c b x))) = tlsproj (snd (tls_loop (S (length b)) p e (set_rbuf c' b x)))).
+  { intros b x. apply tls_loop_cong. unfold tlsproj. cbn. rewrite A1, A2, A3, A6, A7, A8. reflexivity. }
+  destruct (s_state (q_tls c));
+    try (destruct (p && _ && _ && _); [split; [reflexivity|exact H]|apply L]).
+  destruct (client_send_hello (q_cfg c) (q_tls c)) as [[o s'] ks]. cbn [fst snd]. split; [reflexivity|].
+  rewrite !tlsproj_install. unfold tlsproj. cbn. rewrite A1, A6, A7, A8. reflexivity.
+Qed.
+
+(* TLS processing does not touch the CRYPTO streams *)
+Lemma dispatch_one_streams : forall e c t rest, let c1 := snd (dispatch_one e c t rest) in
+  q_si c1 = q_si c /\ q_sh c1 = q_sh c /\ q_sa c1 = q_sa c.
+Proof.
+  intros e c t rest. unfold dispatch_one. destruct (step (q_cfg c) (q_tls c) _) as [[o s'] ks]. cbn [snd].
+  match goal with |- context [install ?x ks] => destruct (install_fields ks x) as (_ & _ & _ & _ & _ & _ & _ & _ & _ & F10 & F11 & F12 & _) end.
+  rewrite F10, F11, F12. repeat split; reflexivity.
+Qed.
+
+Lemma tls_loop_streams : forall p e fuel c, let c1 := snd (tls_loop fuel p e c) in
+  q_si c1 = q_si c /\ q_sh c1 = q_sh c /\ q_sa c1 = q_sa c.
+Proof.
+  intros p e fuel. induction fuel as [|fuel IH]; intros c; cbn [tls_loop]; [repeat split|].
+  destruct (q_rbuf c) as [|t [|l1 [|l2 [|l3 tl]]]]; try (repeat split; reflexivity).
+  destruct (_ >? MAX_HANDSHAKE_MESSAGE_SIZE); [repeat split|].
+  destruct (_ <? _); [repeat split|].
+  destruct (p && _); [repeat split|].
+  pose proof (dispatch_one_streams e c t (zdrop (4 + (l1 * 65536 + l2 * 256 + l3)) (t :: l1 :: l2 :: l3 :: tl))) as D.
+  destruct (dispatch_one e c t _) as [o c1]. cbn [snd] in D. destruct D as (D1 & D2 & D3).
+  destruct o; [|cbn [snd]; repeat split; assumption|cbn [snd]; repeat split; assumption].
+  destruct (IH c1) as (E1 & E2 & E3). rewrite E1, E2, E3. repeat split; assumption.
+Qed.
+
+Lemma tls_feed_streams : forall p e c d e', stream_of (snd (tls_feed p e c d)) e' = stream_of c e'.
+Proof.
+  intros p e c d e'. unfold tls_feed.
+  assert (L : forall b x, stream_of (snd (tls_loop (S (length b)) p e (set_rbuf c b x))) e' = stream_of c e').
+  { intros b x. destruct (tls_loop_streams p e (S (length b)) (set_rbuf c b x)) as (E1 & E2 & E3).
+    unfold stream_of. rewrite E1, E2, E3. reflexivity. }
+  destruct (s_state (q_tls c)); try (destruct (p && _ && _ && _); [reflexivity|apply L]).
+  destruct (client_send_hello (q_cfg c) (q_tls c)) as [[o s'] ks]. cbn [snd].
+  match goal with |- context [install ?x ks] => destruct (install_fields ks x) as (_ & _ & _ & _ & _ & _ & _ & _ & _ & F10 & F11 & F12 & _) end.
+  unfold stream_of. rewrite F10, F11, F12. reflexivity.
+Qed.
+
+Lemma complete_check_proj : forall c, tlsproj (complete_check c) = tlsproj c /\ forall e, stream_of (complete_check c) e = stream_of c e.
+Proof. intros c. unfold complete_check. destruct (_ && _); [|split; reflexivity]. destruct (q_client c); split; reflexivity. Qed.
+
+Lemma stream_of_set_stream : forall c e r, stream_of (set_stream c e r) e = r.
+Proof. intros c e r. unfold stream_of, set_stream. cbn. destruct (e =? EP_INITIAL); [reflexivity|]. destruct (e =? EP_HANDSHAKE); reflexivity. Qed.
+
+Lemma bytes_ok_ztake : forall n l, bytes_ok l -> bytes_ok (ztake n l).
+Proof.
+  intros n l. unfold ztake, bytes_ok. generalize (Z.to_nat n) as k. intros k. revert l.
+  induction k as [|k IH]; intros l H; [constructor|]. destruct l as [|a l]; [constructor|]. cbn. inversion H; subst. constructor; [assumption|apply IH; assumption].
+Qed.
+
+Definition flat (base : Z) : recv := mkRecv base false [] base None [].
+
+Lemma inv_flat : forall base, Inv true (flat base) (mkRSpec (fun _ => None) base None base false).
+Proof. intros base. constructor; cbn; try tauto; try reflexivity; try lia. Qed.
+
+Definition fres_of (r : tres) : fres :=
+  match r with TOk => FOk | TAlert a => FClose (QEC_CRYPTO_ERROR + a) | TExn k => FExn k end.
+
+(* the bytes delivered so far have been digested like one piece *)
+Definition J (p : bool) (e : Z) (c0 c : conn) (acc : list Z) : Prop :=
+  (acc = [] /\ tlsproj c = tlsproj c0) \/
+  (acc <> [] /\ fst (tls_feed p e c0 acc) = TOk /\ tlsproj c = tlsproj (snd (tls_feed p e c0 acc))).
+
+Definition covers (o : Z) (f : Z * list Z) : Prop := fst f <= o < fst f + Zlen (snd f).
+
+Lemma frag_main : forall cl cfg0 p e B base c0,
+  QInv cl cfg0 c0 -> bytes_ok (q_rbuf c0) -> bytes_ok B -> B <> [] -> 0 <= base ->
+  base + Zlen B <= UINT_VAR_MAX -> Zlen B <= MAX_PENDING_CRYPTO ->
+  forall fs c sp acc seen,
+    Inv true (stream_of c e) sp -> SP B base seen sp acc ->
+    Forall (fun f => slice_of B base (fst f) (snd f)) fs ->
+    (forall o, base <= o < base + Zlen B -> seen o \/ Exists (covers o) fs) ->
+    J p e c0 c acc ->
+    let W := tls_feed p e c0 B in
+    let R := frames_loop p e c fs in
+    fst R = fres_of (fst W) /\
+    tlsproj (match fst R with FOk => snd R | _ => forget (snd R) end) =
+    tlsproj (match fst W with TOk => snd W | _ => forget (snd W) end).
+Proof.
+  intros cl cfg0 p e B base c0 I0 Hb0 HB NB Hbase Hmax Hpend.
+  induction fs as [|[off d] fs IH]; intros c sp acc seen IV S Hsl Hcov HJ W R.
+  - (* no frame left: everything has been covered *)
+    assert (C : forall o, base <= o < base + Zlen B -> seen o).
+    { intros o Ho. destruct (Hcov o Ho) as [X|X]; [exact X|inversion X]. }
+    destruct (sp_complete _ _ _ _ _ S C) as [EA _]. subst acc.
+    destruct HJ as [[X _]|(_ & J1 & J2)]; [contradiction|].
+    unfold R, W. cbn [frames_loop fst snd]. rewrite J1. cbn [fres_of]. split; [reflexivity|exact J2].
+  - inversion Hsl as [|? ? Hs Hsl']; subst. cbn [fst snd] in Hs.
+    pose proof Hs as (Hs1 & Hs2 & Hs3).
+    pose proof (frame_refines true _ _ off d false IV) as FR.
+    pose proof (sp_step _ _ _ _ _ off d S Hs) as ST.
+    unfold R. cbn [frames_loop]. unfold crypto_frame.
+    pose proof (Zlen_nonneg d) as Dn.
+    replace (off + Zlen d >? UINT_VAR_MAX) with false by lia.
+    pose proof (i_start _ _ _ IV) as Est. pose proof (sp_range _ _ _ _ _ S) as Rg.
+    replace (off + Zlen d - r_start (stream_of c e) >? MAX_PENDING_CRYPTO) with false by lia.
+    destruct (handle_frame (stream_of c e) off d false) as [o r'].
+    destruct (spec_frame sp off d false) as [o' sp'].
+    destruct FR as (_ & Feq & IV'). specialize (Feq eq_refl). subst o'.
+    destruct ST as (S' & Shape).
+    set (cs := set_stream c e r').
+    assert (Pcs : tlsproj cs = tlsproj c) by reflexivity.
+    assert (Scs : stream_of cs e = r') by apply stream_of_set_stream.
+    assert (Hcov' : forall o0, base <= o0 < base + Zlen B ->
+               (seen o0 \/ off <= o0 < off + Zlen d) \/ Exists (covers o0) fs).
+    { intros o0 Ho. destruct (Hcov o0 Ho) as [X|X]; [left; left; exact X|].
+      apply Exists_cons in X. destruct X as [X|X]; [left; right; exact X|right; exact X]. }
+    destruct Shape as [->|(dd & -> & Ndd)].
+    + (* nothing new *)
+      cbn [bytes_of] in S'. rewrite app_nil_r in S'.
+      apply (IH cs sp' acc (fun x => seen x \/ off <= x < off + Zlen d));
+        [rewrite Scs; exact IV' | exact S' | exact Hsl' | exact Hcov' | ].
+      destruct HJ as [[X Y]|(X & Y & Z)]; [left; split; [exact X|rewrite Pcs; exact Y]|right; split; [exact X|split; [exact Y|rewrite Pcs; exact Z]]].
+    + (* a new chunk for TLS *)
+      cbn [bytes_of] in S'.
+      set (acc' := acc ++ dd) in *.
+      assert (Nacc' : acc' <> []) by (unfold acc'; destruct acc; [exact Ndd|discriminate]).
+      pose proof (sp_acc _ _ _ _ _ S) as Eacc. pose proof (sp_acc _ _ _ _ _ S') as Eacc'.
+      assert (Bacc : bytes_ok acc) by (rewrite Eacc; apply bytes_ok_ztake, HB).
+      assert (Bacc' : bytes_ok acc') by (rewrite Eacc'; apply bytes_ok_ztake, HB).
+      assert (Bdd : bytes_ok dd).
+      { unfold acc' in Bacc'. unfold bytes_ok in *. apply Forall_app in Bacc'. apply Bacc'. }
+      (* feeding dd here = feeding acc' to the connection we started from *)
+      assert (K : fst (tls_feed p e cs dd) = fst (tls_feed p e c0 acc') /\
+                  tlsproj (snd (tls_feed p e cs dd)) = tlsproj (snd (tls_feed p e c0 acc'))).
+      { destruct HJ as [[X Y]|(X & Y & Z)].
+        - unfold acc'. rewrite X. cbn [app]. apply tls_feed_cong. rewrite Pcs. exact Y.
+        - pose proof (tls_feed_app cl cfg0 p e c0 acc dd I0 Hb0 Bacc Bdd X Ndd) as TA.
+          destruct (tls_feed p e c0 acc) as [r0 cm]. cbn [fst snd] in Y, Z. subst r0.
+          fold acc' in TA. rewrite TA. apply tls_feed_cong. rewrite Pcs. exact Z. }
+      destruct K as [K1 K2].
+      destruct (tls_feed p e cs dd) as [tr c2] eqn:TF. cbn [fst snd] in K1, K2.
+      pose proof (tls_feed_streams p e cs dd e) as SS. rewrite TF in SS. cbn [snd] in SS.
+      destruct tr.
+      * (* accepted: go on *)
+        destruct (complete_check_proj c2) as [CP1 CP2].
+        apply (IH (complete_check c2) sp' acc' (fun x => seen x \/ off <= x < off + Zlen d));
+          [rewrite CP2, SS, Scs; exact IV' | exact S' | exact Hsl' | exact Hcov' | ].
+        right. split; [exact Nacc'|]. split; [symmetry; exact K1|rewrite CP1; exact K2].
+      * (* refused: the whole of B is refused the same way *)
+        cbn [fst snd]. pose proof (sp_prefix _ _ _ _ _ S') as PB. fold acc' in PB.
+        set (Y := zdrop (sp_del sp' - base) B) in *.
+        destruct Y as [|y Y'] eqn:EY.
+        -- rewrite app_nil_r in PB. unfold W. rewrite PB, <- K1. cbn [fres_of]. split; [reflexivity|].
+           apply tlsproj_forget. exact K2.
+        -- assert (BY : bytes_ok (y :: Y')) by (rewrite <- EY; apply bytes_ok_zdrop, HB).
+           pose proof (tls_feed_app cl cfg0 p e c0 acc' (y :: Y') I0 Hb0 Bacc' BY Nacc' ltac:(discriminate)) as TA.
+           destruct (tls_feed p e c0 acc') as [r0 cx]. cbn [fst snd] in K1, K2. subst r0.
+           destruct TA as [T1 T2]. unfold W. rewrite PB, T1. cbn [fres_of]. split; [reflexivity|].
+           unfold forget in T2 |- *.
+           transitivity (tlsproj (set_rbuf cx [] 0)); [apply (tlsproj_forget _ _ K2)|].
+           unfold forget in T2. rewrite <- T2. reflexivity.
+      * cbn [fst snd]. pose proof (sp_prefix _ _ _ _ _ S') as PB. fold acc' in PB.
+        set (Y := zdrop (sp_del sp' - base) B) in *.
+        destruct Y as [|y Y'] eqn:EY.
+        -- rewrite app_nil_r in PB. unfold W. rewrite PB, <- K1. cbn [fres_of]. split; [reflexivity|].
+           apply tlsproj_forget. exact K2.
+        -- assert (BY : bytes_ok (y :: Y')) by (rewrite <- EY; apply bytes_ok_zdrop, HB).
+           pose proof (tls_feed_app cl cfg0 p e c0 acc' (y :: Y') I0 Hb0 Bacc' BY Nacc' ltac:(discriminate)) as TA.
+           destruct (tls_feed p e c0 acc') as [r0 cx]. cbn [fst snd] in K1, K2. subst r0.
+           destruct TA as [T1 T2]. unfold W. rewrite PB, T1. cbn [fres_of]. split; [reflexivity|].
+           transitivity (tlsproj (set_rbuf cx [] 0)); [apply (tlsproj_forget _ _ K2)|].
+           unfold forget in T2. rewrite <- T2. reflexivity.
+Qed.
+
+(* result of a frame sequence as TLS sees it: the verdict, and what TLS processing reads and writes of the connection
+   (Context.state, every dispatched message with its outcome and key callbacks, the oracle records consumed, pending
+   output; the receive buffer only when the frames were accepted -- after a refusal the connection is closing and the
+   unprocessed tail differs by construction) *)
+Definition fview (x : fres * conn) :=
+  (fst x, tlsproj (match fst x with FOk => snd x | _ => forget (snd x) end)).
+
+Lemma slice_whole : forall B base, slice_of B base base B.
+Proof.
+  intros B base. unfold slice_of. split; [lia|]. split; [lia|].
+  rewrite Z.sub_diag, zdrop_0 by lia. symmetry. apply ztake_all. lia.
+Qed.
+
+Lemma fragmentation_independent_lemma : forall patched cl cfg0 orcs ops e base B fs,
+  let c := run_conn patched (conn_init cl cfg0 orcs) ops in
+  bytes_ok (q_rbuf c) -> stream_of c e = flat base -> 0 <= base ->
+  bytes_ok B -> B <> [] -> base + Zlen B <= UINT_VAR_MAX -> Zlen B <= MAX_PENDING_CRYPTO ->
+  Forall (fun f => slice_of B base (fst f) (snd f)) fs ->
+  (forall o, base <= o < base + Zlen B -> Exists (covers o) fs) ->
+  fview (frames_loop patched e c fs) = fview (frames_loop patched e c [(base, B)]).
+Proof.
+  intros patched cl cfg0 orcs ops e base B fs c Hc Hst Hbase HB NB Hmax Hpend Hsl Hcov.
+  pose proof (qinv_run_conn cl cfg0 patched ops _ (qinv_init cl cfg0 orcs)) as I. fold c in I.
+  assert (IV : Inv true (stream_of c e) (mkRSpec (fun _ => None) base None base false)) by (rewrite Hst; apply inv_flat).
+  assert (J0 : J patched e c c []) by (left; split; reflexivity).
+  pose proof (frag_main cl cfg0 patched e B base c I Hc HB NB Hbase Hmax Hpend fs c _ [] _ IV (sp_init B base) Hsl
+                (fun o Ho => or_intror (Hcov o Ho)) J0) as [A1 A2].
+  assert (Hsl1 : Forall (fun f => slice_of B base (fst f) (snd f)) [(base, B)]) by (constructor; [apply slice_whole|constructor]).
+  assert (Hcov1 : forall o, base <= o < base + Zlen B -> False \/ Exists (covers o) [(base, B)]).
+  { intros o Ho. right. constructor. exact Ho. }
+  pose proof (frag_main cl cfg0 patched e B base c I Hc HB NB Hbase Hmax Hpend [(base, B)] c _ [] _ IV (sp_init B base) Hsl1
+                Hcov1 J0) as [B1 B2].
+  unfold fview. rewrite A2, B2, A1, B1. reflexivity.
+Qed.
+
+(* the premises are satisfiable; a ServerHello header cut into three frames that arrive out of order, one of them twice *)
+Example fragmentation_example :
+  let c := conn_init true (mkCfg false false true false) [mkMsg 2 0 0 false true false true true true true 0 true] in
+  let fs := [(2, [0; 0]); (2, [0; 0]); (0, [2]); (1, [0; 0])] in
+  bytes_ok (q_rbuf c) /\ stream_of c EP_INITIAL = flat 0 /\
+  Forall (fun f => slice_of [2; 0; 0; 0] 0 (fst f) (snd f)) fs /\
+  fst (frames_loop false EP_INITIAL c fs) = FOk /\
+  s_state (q_tls (snd (frames_loop false EP_INITIAL c fs))) = CLIENT_EXPECT_ENCRYPTED_EXTENSIONS.
+Proof.
+  cbv zeta. split; [constructor|]. split; [reflexivity|]. split.
+  - repeat constructor; unfold slice_of; cbn; repeat split; try lia; reflexivity.
+  - split; vm_compute; reflexivity.
+Qed.
